@@ -149,6 +149,35 @@ def run(cx):
     cx.ob('EXPR', 'order-vote:siblings', votes == {'geom2::hull::point_order_direction': True, 'geom2::curve2::Curve2::from_points_ccw': True},
           'both order detectors sum signum(hull[(i+1)%n] - hull[i]) over the convex hull of the input and decide on `sum > 0` (counter-clockwise / keep order)', found=str(votes))
 
+    # ---------------------------------------------------------------- hull diameter: exhaustive pair scan
+    b = cx.fn('geom2::hull::farthest_pair_indices')
+    if b:
+        from vpa import term as T
+        okx, why = T.exhaustive_loops(cx, b)
+        PTS = '(call ConvexPolygon::points (param hull))'
+        I = f'(itervar (range 0 (len {PTS})))'
+        J = f'(itervar (range (add 1 {I}) (len {PTS})))'
+        D = f'(call *points::dist (index {PTS} {I}) (index {PTS} {J}))'
+        dag = b.dag()
+        upd_pair = upd_dist = False
+        for (bb, pos, kind, pay) in [d for l in b.defs().values() for d in l]:
+            if kind != 'assign' or pay['pl']['p']:
+                continue
+            if bb not in b.loop_blocks(b.loops()[-1][0]) and bb not in b.loop_blocks(b.loops()[0][0]):
+                continue
+            val = simplify(dag.rvalue(pay['rv'], bb, pos))
+            g = cx.guarded(b, bb, f'(lt _ {D})', True)
+            if g is not None and match(f'(agg tuple (0 {I}) (1 {J}))', val) is not None and b.local_name(pay['pl']['l']) == 'max_pair':
+                upd_pair = True
+            if g is not None and match(D, val) is not None and b.local_name(pay['pl']['l']) == 'max_dist':
+                upd_dist = True
+        cmp_ok = any(find(f'(lt (anyphi 0.0) {D})', simplify(dag.operand(blk['term']['d'], bi, len(blk['stmts'])))) is not None
+                     for bi, blk in enumerate(b.blocks) if bi in b.live and blk['term']['k'] == 'switch')
+        cx.ob('ORDER', 'farthest_pair_indices:exhaustive', okx and len(b.loops()) == 2, 'the diameter scan visits EVERY pair i < j of hull vertices: neither loop can be left early', where=b.file, found='; '.join(why) or None)
+        cx.ob('EXPR', 'farthest_pair_indices:running-maximum', upd_pair and upd_dist and cmp_ok,
+              'pairs are (i, j) with j in i+1..n; the running maximum distance (initially 0) and the pair are replaced together exactly when dist(p[i], p[j]) exceeds it', where=b.file,
+              found=f'pair={upd_pair} dist={upd_dist} cmp={cmp_ok}')
+
 
 def run_thorough(cx):
     """thorough tier: the generic evaluators this property relies on must fire on their positive fixture twins"""
